@@ -107,9 +107,10 @@ def lit_value(t):
     return t.value
 
 
-def model_tree(m, I):
+def model_tree(m, I, numbering=None):
     """the dataclass tree Hugr.to_model() returned, reduced to what the property speaks about.
-    Fails closed on anything it does not know."""
+    Fails closed on anything it does not know.  numbering (diagnostic only): interned link name -> the number
+    it spells."""
     import hugr.model as model
     if not isinstance(m, model.Module):
         raise HarnessError("not a Module")
@@ -126,7 +127,10 @@ def model_tree(m, I):
     def name(x):
         if not isinstance(x, str):
             raise HarnessError("link name is not a string")
-        return I("link:" + x)
+        k = I("link:" + x)
+        if numbering is not None and x.isascii() and x.isdigit() and len(x) < 9:
+            numbering[k] = int(x)
+        return k
 
     def sym(x):
         return I("sym:" + x)
@@ -318,6 +322,47 @@ def named_program(name):
         a, b = g.inputs()
         dm = g.add_op(DivMod, a, b)
         g.set_outputs(dm[0])
+    elif name == "cfg_no_entry":      # totality boundary (C12_export_total_iff): a CFG without a basic block
+        g = m.define_main([tys.Bool])
+        (b,) = g.inputs()
+        cfg = g.hugr.add_node(ops.CFG([tys.Bool], [tys.Bool]), g.parent_node, num_outs=1)
+        g.hugr.add_node(ops.ExitBlock([tys.Bool]), cfg)
+        g.hugr.add_link(b.out_port(), cfg.inp(0))
+        g.set_outputs(cfg.out(0))
+    elif name == "half_order":        # clause-6 guard boundary (order_ports_b): order port linked to a value port
+        g = m.define_main([tys.Bool])
+        (b,) = g.inputs()
+        n1 = g.add_op(Not, b)
+        n2 = g.hugr.add_node(Not, g.parent_node, num_outs=1)
+        g.hugr.add_link(n1.out(-1), n2.inp(0))
+        g.set_outputs(n1, n2.out(0))
+    elif name == "order_fan":         # order edges fanning in and out, to Output and from Input, in a nested DFG
+        g = m.define_main([tys.Bool])
+        (b,) = g.inputs()
+        with g.add_nested(b) as d:
+            (x,) = d.inputs()
+            a1 = d.add_op(Not, x)
+            a2 = d.add_op(Not, x)
+            a3 = d.add_op(Not, x)
+            d.add_state_order(a1, d.output_node)
+            d.add_state_order(a1, a3)
+            d.add_state_order(a2, a3)
+            d.add_state_order(d.input_node, a2)
+            d.add_state_order(a3, d.output_node)
+            d.set_outputs(a1, a2, a3)
+        n = g.add_op(Not, b)
+        g.add_state_order(d, n)
+        g.set_outputs(d[0], n)
+    elif name == "order_back":        # order edges from a later node to an earlier one, and fan-in
+        g = m.define_main([tys.Bool])
+        (b,) = g.inputs()
+        n1 = g.add_op(Not, b)
+        n2 = g.add_op(Not, b)
+        n3 = g.add_op(Not, b)
+        g.add_state_order(n3, n1)
+        g.add_state_order(n2, n1)
+        g.add_state_order(n3, n2)
+        g.set_outputs(n1, n2, n3)
     elif name == "dfg_root":          # not a module: export of the root as a module region raises
         d = Dfg(tys.Bool)
         d.set_outputs(*d.inputs())
@@ -328,7 +373,66 @@ def named_program(name):
 
 
 NAMED = ["call_twice", "load_twice", "order_hint", "cfg_entry", "cfg_loop", "fn_value", "poly_call", "alias",
-         "unused_outputs"]
+         "unused_outputs", "order_fan", "order_back"]
+# programs outside the guard of the theorems (not claimed valid): model and implementation must still agree
+BOUNDARY = ["dfg_root", "cfg_no_entry", "half_order"]
+GUARDS = ("g_valid", "g_order", "g_ports", "g_stars", "g_cfg", "g_hints", "g_total", "g_all", "g_noerr", "g_numexact")
+
+
+# ----------------------------------------------------------------------------- extra state-order edges
+
+ORDERABLE = ("KDFG", "KCFG", "KCond", "KLoop", "KCall", "KLoadFunc", "KLoadConst", "KCallInd", "KTag", "KExt")
+
+
+def add_unrelated_order_edges(h, rng, tries=3):
+    """harness/progs.py only adds state-order edges that point forward in node order.  The builder allows any
+    acyclic one (Dfg.add_state_order): this adds, in random dataflow regions, order edges between siblings that
+    no path of value/order edges relates, preferably from the later node to the earlier one.  Returns their number."""
+    from hugr import ops
+    containers = [n for n in h if isinstance(h[n].op, (ops.DFG, ops.FuncDefn, ops.TailLoop, ops.Case, ops.DataflowBlock))]
+    rng.shuffle(containers)
+    added = 0
+    for cont in containers:
+        if added >= tries:
+            break
+        kids = [c for c in h.children(cont) if kind_of(h[c].op) in ORDERABLE]
+        if len(kids) < 2:
+            continue
+        inside = {}
+        for c in kids:                       # every node below a sibling counts as that sibling
+            stack = [c]
+            while stack:
+                x = stack.pop()
+                inside[x] = c
+                stack.extend(h.children(x))
+        succ = {c: set() for c in kids}
+        for s_, t_ in h.links():
+            a, b = inside.get(s_.node), inside.get(t_.node)
+            if a is not None and b is not None and a != b:
+                succ[a].add(b)
+
+        def reach(a, b):
+            seen, stack = set(), [a]
+            while stack:
+                x = stack.pop()
+                if x == b:
+                    return True
+                if x not in seen:
+                    seen.add(x)
+                    stack.extend(succ[x])
+            return False
+        pairs = [(a, b) for a in kids for b in kids if a.idx > b.idx]
+        rng.shuffle(pairs)
+        for a, b in pairs[:6]:
+            if reach(a, b) or reach(b, a):
+                continue
+            if rng.random() < 0.25:
+                a, b = b, a
+            h.add_order_link(a, b)
+            succ[a].add(b)
+            added += 1
+            break
+    return added
 
 
 # ----------------------------------------------------------------------------- python.rs / hugr.model -> coq/gen/ModelAttrs.v
@@ -448,7 +552,9 @@ class C12(fw.Prop):
     shard = 12
     rule = ("module-rooted HUGRs built by generated well-formed builder programs (harness/progs.py, root=module: "
             "declared/defined/polymorphic functions called and loaded several times, module-level and local "
-            "constants incl. function values, order edges, nested DFG/Conditional/TailLoop/CFG, metadata) plus "
+            "constants incl. function values, order edges (forward ones from the generator; in half of the cases the harness "
+            "adds acyclic ones between unrelated siblings, mostly pointing backward), nested DFG/Conditional/TailLoop/"
+            "CFG, metadata) plus "
             "hand-written ones; Hugr.to_model() (and Package.to_model()) observed as the dataclass tree.  "
             "non-trivial = the HUGR has a static edge (call or load), an order edge between siblings and a "
             "nested container")
@@ -456,8 +562,9 @@ class C12(fw.Prop):
                "classes); type, value and signature terms are compared as opaque payloads (repr of the term "
                "the public to_model() methods return)",
                "hugr.model string/bytes printing (native module) is outside the model"]
-    assumptions = ["validity guard of the theorems (ExportS.valid_b, valid_order_b) evaluated per case; a generated "
-                   "module that does not meet it is reported as a correspondence failure"]
+    assumptions = ["validity guard of the theorems (ExportS.valid_b, valid_order_b, order_ports_b, stars_b, "
+                   "cfg_entries_b) evaluated per case; a generated module that does not meet it is reported as a "
+                   "correspondence failure; coverage.input_distribution.guards counts, per guard, the cases that meet it"]
 
     def regenerate(self, ctx):
         reads, built = scan_python_rs(os.path.join(fw.REPO, "hugr-model", "src", "v0", "ast", "python.rs"))
@@ -468,8 +575,8 @@ class C12(fw.Prop):
 
     # -- cases
     def corpus(self, ctx):
-        return [{"prog": n} for n in NAMED] + [{"prog": "dfg_root", "valid": False},
-                                               {"prog": "call_twice", "package": True}]
+        return [{"prog": n} for n in NAMED] + [{"prog": n, "valid": False} for n in BOUNDARY] + [
+            {"prog": "call_twice", "package": True}]
 
     def generate(self, rng, tier, ctx):
         n = 260 if tier == "quick" else 3000
@@ -482,6 +589,8 @@ class C12(fw.Prop):
                 c["valid"] = False
             elif r < 0.12:
                 c["package"] = True
+            if c["root"] == "module" and rng.random() < 0.5:
+                c["xorder"] = True           # extra order edges between unrelated siblings, also pointing backward
             cases.append(c)
         return cases
 
@@ -495,12 +604,16 @@ class C12(fw.Prop):
             kw["max_depth"] = case["depth"]
         p = progs.gen_program(random.Random(case["seed"]), case.get("root"), **kw)
         try:
-            return progs.run(p).hugr, p
+            h = progs.run(p).hugr
+            if case.get("xorder"):
+                add_unrelated_order_edges(h, random.Random(case["seed"] ^ 0x5EED))
+            return h, p
         except TypeError:
             # generator artefact (a region that could not be completed): replaced by a fixed program
             return named_program("call_twice"), "call_twice(fallback)"
 
     def observe(self, case, ctx):
+        self._ctx = ctx
         I = fw.Interner()
         try:
             h, p = self.build(case)
@@ -517,21 +630,23 @@ class C12(fw.Prop):
                 m = pk.modules[0] if len(pk.modules) == 1 else None
             else:
                 m = h.to_model()
-            tree = model_tree(m, I)
+            numbering = {}
+            tree = model_tree(m, I, numbering)
             err = None
         except HarnessError as e:
-            tree, err = None, "harness:" + str(e)
+            tree, err, numbering = None, "harness:" + str(e), {}
         except Exception as e:
-            tree, err = None, type(e).__name__
-        return {"view": view, "tree": tree, "raised": err, "prog": p}
+            tree, err, numbering = None, type(e).__name__, {}
+        return {"view": view, "tree": tree, "raised": err, "prog": p, "numbering": sorted(numbering.items())}
 
     def literal(self, case, obs, ctx):
         if "error" in obs:
             # the HUGR could not be obtained: an empty non-module view with a failed export, claimed valid
-            return "(CExport (mkH (HNode (mkN 0 KUnknown 0 0 (-1) 0 0 0 []) []) []) None true)"
-        return "(CExport %s %s %s)" % (g_view(obs["view"]),
-                                       "None" if obs["tree"] is None else "(Some %s)" % g_region(obs["tree"]),
-                                       gbool(case.get("valid", True)))
+            return "(CExport (mkH (HNode (mkN 0 KUnknown 0 0 (-1) 0 0 0 []) []) []) None true [])"
+        return "(CExport %s %s %s %s)" % (g_view(obs["view"]),
+                                          "None" if obs["tree"] is None else "(Some %s)" % g_region(obs["tree"]),
+                                          gbool(case.get("valid", True)),
+                                          glist("(%s, %s)" % (gN(a), gN(b)) for a, b in obs.get("numbering", [])))
 
     # -- classification
     def stats(self, obs):
@@ -558,7 +673,8 @@ class C12(fw.Prop):
         kind = {i["idx"]: i["kind"] for i in nodes}
         sib_order = [l for l in order if kind.get(l[0]) != "KInput" and kind.get(l[2]) != "KOutput"]
         return {"nodes": len(nodes), "depth": depth[0], "kinds": kinds, "order": len(order),
-                "sib_order": len(sib_order), "links": len(v["links"])}
+                "sib_order": len(sib_order), "back_order": sum(1 for l in sib_order if l[0] > l[2]),
+                "links": len(v["links"])}
 
     def nontrivial(self, case, obs):
         if "error" in obs:
@@ -622,6 +738,7 @@ class C12(fw.Prop):
                 d["kinds"][k] = d["kinds"].get(k, 0) + v
             d["order_edges"] += s["order"]
             d["sibling_order_edges"] += s["sib_order"]
+            d["backward_sibling_order_edges"] = d.get("backward_sibling_order_edges", 0) + s["back_order"]
             d["non_module_roots"] += s["kinds"].get("KModule", 0) == 0
             if o.get("raised"):
                 d["raised"][o["raised"]] = d["raised"].get(o["raised"], 0) + 1
@@ -630,7 +747,33 @@ class C12(fw.Prop):
                     d["stmt_kinds"][k] = d["stmt_kinds"].get(k, 0) + v
         ns = sorted(d["nodes"])
         d["nodes"] = {"min": ns[0], "median": ns[len(ns) // 2], "max": ns[-1]} if ns else {}
+        d["guards"] = self.guard_counts(cases, observations)
         return d
+
+    def guard_counts(self, cases, observations):
+        """How many of this run's HUGRs meet the guard of which theorem: the guards of spec/ExportS.v evaluated in
+        Coq on every case (g_hints = guard of C12_order_hints_complete_and_keyed, g_total = guard of
+        C12_export_total, g_all = the monitor's guard, g_noerr = the model's export does not raise)."""
+        ctx = getattr(self, "_ctx", None)
+        if ctx is None or not cases:
+            return {}
+        try:
+            lits = [self.literal(c, o, ctx) for c, o in zip(cases, observations)]
+            res = fw.eval_cases(ctx.work, self.run_module, lits, shard=4 * self.shard, checks=GUARDS, tag="guards")
+        except Exception as e:                                   # reported, never silently dropped
+            return {"error": type(e).__name__ + ": " + str(e)[-300:]}
+        claimed = {i for i, c in enumerate(cases) if c.get("valid", True)}
+        out = {"cases": len(cases), "claimed_valid": len(claimed)}
+        for g in GUARDS:
+            bad = set(res[g])
+            out[g[2:]] = {"all": len(cases) - len(bad), "of_claimed_valid": len(claimed - bad)}
+        with_cfg = [i for i, o in enumerate(observations) if "view" in o and self.stats(o)["kinds"].get("KCFG", 0)]
+        out["cases_with_cfg"] = len(with_cfg)
+        out["cases_with_sibling_order_edge"] = sum(1 for o in observations if "view" in o and self.stats(o)["sib_order"] > 0)
+        ctx.stats["first_use_numbers_exact"] = "%d/%d" % (out["numexact"]["of_claimed_valid"], len(claimed))
+        ctx.stats["guard_total_met"] = "%d/%d" % (out["total"]["of_claimed_valid"], len(claimed))
+        ctx.stats["guard_hints_met"] = "%d/%d" % (out["hints"]["of_claimed_valid"], len(claimed))
+        return out
 
 
 PROP = C12()
